@@ -141,6 +141,69 @@ def _cyclic_match(got, exp, either=False):
     return False
 
 
+def _ll(a):
+    lo, la = mg.lonlat_of(a[:, 0], a[:, 1], a[:, 2])
+    return np.stack([lo, la], axis=1).round(6).tolist() if len(a) else []
+
+
+def _decoded_faces(fnc, lon, lat):
+    """-> (list of (k,3) corner arrays, None) or (None, failure) when an entry is no usable node index"""
+    P = _xyz(lon, lat)
+    out = []
+    for i, row in enumerate(fnc):
+        if np.issubdtype(fnc.dtype, np.floating):
+            ids = [int(v) for v in row if np.isfinite(v) and v != FILL]
+        else:
+            ids = [int(v) for v in row if v != FILL]
+        if any(v < 0 or v >= len(lon) for v in ids):
+            return None, {"kind": "positions", "observed": f"face {i}: node ids {ids} (n_node={len(lon)})",
+                          "expected": "indices of the source's corners"}
+        out.append(P[ids] if ids else np.zeros((0, 3)))
+    return out, None
+
+
+def _match_unordered(got, exp, either):
+    used = [False] * len(got)
+    for i, e in enumerate(exp):
+        hit = next((j for j, g in enumerate(got) if not used[j] and len(g) == len(e) and _cyclic_match(g, e, either)), None)
+        if hit is None:
+            return i
+        used[hit] = True
+    return None
+
+
+def _classify(g, e):
+    if len(g) != len(e):
+        return "n_corners"
+    near = lambda a, B: any(np.linalg.norm(a - b) <= TOL_CHORD for b in B)  # noqa: E731
+    if all(near(a, e) for a in g) and all(near(b, g) for b in e):
+        return "cyclic_order"
+    return "positions"
+
+
+def _compare_faces(got, exp, ordered=True, either=False):
+    """got, exp: lists of (k,3) unit-vector arrays.  None if equal, else dict(kind, observed, expected); kind is one of
+    n_face | face_order | n_corners | cyclic_order | positions (a node id outside [0, n_node) also counts as a wrong position)"""
+    if len(got) != len(exp):
+        return {"kind": "n_face", "observed": f"{len(got)} faces", "expected": f"{len(exp)} faces"}
+    if ordered:
+        bad = next((i for i, (g, e) in enumerate(zip(got, exp)) if not _cyclic_match(g, e, either)), None)
+        if bad is None:
+            return None
+        if _match_unordered(got, exp, either) is None:
+            return {"kind": "face_order", "observed": f"face {bad} is a different source face", "expected": "faces in source order"}
+        return {"kind": _classify(got[bad], exp[bad]), "observed": f"face {bad} corners (lon,lat) {_ll(got[bad])}",
+                "expected": f"cyclic rotation of {_ll(exp[bad])}"}
+    bad = _match_unordered(got, exp, either)
+    if bad is None:
+        return None
+    # closest decoded face (by corner sets) tells what went wrong
+    kinds = [_classify(g, exp[bad]) for g in got]
+    kind = "cyclic_order" if "cyclic_order" in kinds else ("positions" if "positions" in kinds else "n_corners")
+    return {"kind": kind, "observed": f"no decoded face equals source face {bad}; decoded sizes {sorted({len(g) for g in got})}",
+            "expected": f"some face with corners {_ll(exp[bad])}"}
+
+
 def _rows_equal(table, rows, n_valid):
     """table: int array (n, w) with FILL; rows: expected lists; compares the multiset of non-FILL entries per row"""
     table = np.asarray(table)
@@ -192,26 +255,14 @@ def _evaluate(grid, exp):
     out["standard_form"] = bad
 
     # faces: same positions in the same cyclic order, same face order
-    bad = None
-    if fnc.ndim != 2 or fnc.shape[0] != len(faces):
-        bad = {"observed": f"table shape {fnc.shape}", "expected": f"{len(faces)} rows"}
+    if fnc.ndim != 2:
+        bad = {"kind": "n_face", "observed": f"table shape {fnc.shape}", "expected": f"{len(faces)} rows"}
     else:
-        P = _xyz(lon, lat)
-        for i, row in enumerate(fnc):
-            ids = [int(v) for v in row if v != FILL]
-            if np.issubdtype(fnc.dtype, np.floating):
-                ids = [int(v) for v in row if np.isfinite(v) and v != FILL]
-            # consecutive duplicates (a reader that keeps repeated padding) are left in: the face then has the wrong size
-            if any(v < 0 or v >= n_node for v in ids):
-                bad = {"observed": f"face {i}: node ids {ids} (n_node={n_node})", "expected": "ids of the source's corners"}
-                break
-            got = P[ids] if ids else np.zeros((0, 3))
-            if not _cyclic_match(got, faces[i], exp.get("either_orientation", False)):
-                gl = [[round(float(lon[v]), 6), round(float(lat[v]), 6)] for v in ids]
-                el = np.stack(mg.lonlat_of(faces[i][:, 0], faces[i][:, 1], faces[i][:, 2]), axis=1).round(6).tolist()
-                bad = {"observed": f"face {i} corners (lon,lat) {gl}", "expected": f"cyclic rotation of {el}"}
-                break
-    out["faces"] = bad
+        got, bad = _decoded_faces(fnc, lon, lat)
+        if bad is None:
+            bad = _compare_faces(got, faces, ordered=True, either=exp.get("either_orientation", False))
+    if not (bad is not None and bad.get("kind") == "n_face" and out["n_face"] is not None):   # already reported by n_face
+        out["faces"] = bad
 
     # coordinate ranges
     bad = None
@@ -277,7 +328,7 @@ _FILLS = {"-1": -1, "FILL": FILL, "999999": 999999, "nan": np.nan, "nan(no _Fill
 def _ugrid_axes(mesh):
     return {"start_index": [0, 1, "absent"], "fill": ["-1", "FILL", "999999", "nan", "nan(no _FillValue attr)", "absent"],
             "dtype": ["int64", "int32", "float64"], "names": ["uxarray", "Mesh2", "arbitrary"],
-            "lon": ["-180..180", "0..360"], "extras": [False, True]}
+            "lon": ["-180..180", "0..360"], "extras": [True, False]}
 
 
 def _fill_ok(fill, dtype, mixed):
@@ -344,7 +395,7 @@ def _ugrid_build(mesh, d):
 # ------------------------------------------------------------------------------------------------ explicit topology
 def _topo_axes(mesh):
     return {"start_index": [0, 1], "fill": ["-1", "FILL", "999999", "nan", "absent"], "dtype": ["int64", "int32", "float64"],
-            "entry": ["Grid.from_topology", "open_grid(dict)"], "lon": ["-180..180", "0..360"], "extras": [False, True]}
+            "entry": ["Grid.from_topology", "open_grid(dict)"], "lon": ["-180..180", "0..360"], "extras": [True, False]}
 
 
 def _topo_valid(mesh, d):
@@ -408,7 +459,7 @@ def _verts_build(mesh, d):
 # ------------------------------------------------------------------------------------------------ MPAS
 def _mpas_axes(mesh):
     ax = {"padding": ["zeros", "repeat_last"], "dtype": ["int32", "int64"], "lon": ["0..2pi", "-pi..pi"],
-          "maxEdges": ["tight", "wide"], "extras": [False, True], "mesh": ["primal"]}
+          "maxEdges": ["tight", "wide"], "extras": [True, False], "mesh": ["primal"]}
     if mesh["closed"]:
         ax["mesh"] = ["primal", "dual"]
     return ax
@@ -724,20 +775,18 @@ FORMATS = {
 
 
 # ------------------------------------------------------------------------------------------------ driver
-def _dialects(fmt, mesh, rng, limit):
+def _dialects(fmt, mesh, rng, limit, depth=1):
+    """valid dialects of the format for this mesh: the baseline, every deviation from it in at most `depth` axes, and a seeded
+    sample of the rest up to `limit` dialects in total (limit None: the full product)"""
     ax = FORMATS[fmt]["axes"](mesh)
     names = list(ax)
     allc = [dict(zip(names, vals)) for vals in itertools.product(*[ax[n] for n in names])]
     allc = [d for d in allc if FORMATS[fmt]["valid"](mesh, d)]
-    if limit is None or len(allc) <= limit:
+    if limit is None:
         return allc
-    # always: the baseline and every single-axis deviation from it; then a seeded sample of the rest
     base = {n: ax[n][0] for n in names}
-    keep = []
-    for d in allc:
-        if sum(d[n] != base[n] for n in names) <= 1:
-            keep.append(d)
-    rest = [d for d in allc if d not in keep]
+    keep = [d for d in allc if sum(d[n] != base[n] for n in names) <= depth]
+    rest = [d for d in allc if sum(d[n] != base[n] for n in names) > depth]
     rng.shuffle(rest)
     return keep + rest[:max(0, limit - len(keep))]
 
@@ -745,6 +794,8 @@ def _dialects(fmt, mesh, rng, limit):
 def _clause_key(clause, info):
     if clause == "open":
         return f"open:{info.get('exc')}@{info.get('where')}"
+    if "kind" in info:
+        return f"{clause}[{info['kind']}]"
     return clause
 
 
@@ -753,7 +804,8 @@ _MEMO = {}
 
 def _fails(fmt, mesh, dialect, ckey):
     """_run is deterministic for (format, mesh, dialect): sources are rebuilt on every call"""
-    if not FORMATS[fmt]["valid"](mesh, dialect):
+    ax = FORMATS[fmt]["axes"](mesh)
+    if set(ax) != set(dialect) or any(dialect[n] not in ax[n] for n in ax) or not FORMATS[fmt]["valid"](mesh, dialect):
         return False
     k = (fmt, mesh["name"], tuple(sorted((a, str(b)) for a, b in dialect.items())))
     if k not in _MEMO:
@@ -762,26 +814,32 @@ def _fails(fmt, mesh, dialect, ckey):
 
 
 def _reduce(fmt, mesh, dialect, ckey, probes):
-    """smallest set of non-baseline dialect choices (greedy) + smallest probe mesh that still violates the clause"""
-    ax = FORMATS[fmt]["axes"](mesh)
+    """smallest probe mesh + smallest set of non-baseline dialect choices (greedy; axis values are listed simplest first)
+    that still violate the clause"""
     d = dict(dialect)
+    tag, m = next(((pn, pm) for pn, pm, _ in probes if _fails(fmt, pm, d, ckey)), (None, mesh))
+    ax = FORMATS[fmt]["axes"](m)
     for n in ax:
-        for simpler in ax[n][:ax[n].index(d[n])]:          # axis values are listed simplest first
+        for simpler in ax[n][:ax[n].index(d[n])]:
             trial = dict(d)
             trial[n] = simpler
-            if _fails(fmt, mesh, trial, ckey):
+            if _fails(fmt, m, trial, ckey):
                 d = trial
                 break
-    tag = None
-    for pname, pm in probes:
-        axp = FORMATS[fmt]["axes"](pm)
-        if all(d[n] in axp.get(n, []) for n in d) and len(axp) == len(d) and _fails(fmt, pm, d, ckey):
-            tag = pname
-            break
-    if tag is None:
-        tag = "some meshes"
+    tag = next((pn for pn, pm, _ in probes if _fails(fmt, pm, d, ckey)), "some meshes")
     delta = ",".join(f"{n}={d[n]}" for n in ax if d[n] != ax[n][0]) or "baseline dialect"
     return d, delta, tag
+
+
+def _explained(fmt, mesh, d, rec, probes):
+    """an already reported reduced dialect is contained in this one and its mesh class covers this mesh"""
+    ax = FORMATS[fmt]["axes"](mesh)
+    for n in ax:
+        small = rec["dmin"].get(n, ax[n][0])
+        if not (small == ax[n][0] or small == d[n]):
+            return False
+    pred = next((pp for pn, _, pp in probes if pn == rec["tag"]), None)
+    return pred is not None and pred(mesh)
 
 
 def _geos_meshes():
@@ -789,37 +847,54 @@ def _geos_meshes():
              "lon": np.zeros(1), "lat": np.zeros(1), "n_node": 0} for n in (1, 2)]
 
 
+def _node0_unreferenced(mesh):
+    return mesh["n_node"] > 0 and 0 not in set(int(v) for v in mesh["faces"].ravel() if v != FILL)
+
+
+def _probes():
+    small = {m["name"]: m for m in mg.small_meshes()}
+    q = small["quads2x1@-20,-10"]
+    orphan = mg.mk("quads2x1+unreferenced_node0", [50.0] + q["lon"].tolist(), [50.0] + q["lat"].tolist(),
+                   [[v + 1 for v in mg.face_corners(q, f)] for f in range(q["n_face"])])
+    return [("any mesh (uniform 2-quad patch suffices)", q, lambda m: True),
+            ("triangle meshes (tri_fan4 suffices)", small["tri_fan4"], lambda m: set(mg.npf(m["faces"]).tolist()) == {3}),
+            ("mixed-size meshes (mixed_quad_tri_isolated suffices)", small["mixed_quad_tri_isolated"], _is_mixed),
+            ("closed meshes (cube suffices)", mg.cube(), lambda m: bool(m["closed"])),
+            ("meshes whose node 0 is unreferenced (2-quad patch + orphan node suffices)", orphan, _node0_unreferenced)]
+
+
 def readers(tier, seed):
     rng = random.Random(seed * 104729 + 7)
-    meshes = [m for m in mg.small_meshes() + mg.closed_meshes() if m["n_face"] <= MAX_FACES]
-    extra = [mg.renumber(m, rng) for m in (mg.small_meshes()[6], mg.small_meshes()[9], mg.closed_meshes()[0])]
+    probes = _probes()
+    probe_names = {pm["name"] for _, pm, _ in probes}
+    meshes = [pm for _, pm, _ in probes]
+    meshes += [m for m in mg.small_meshes() + mg.closed_meshes() if m["n_face"] <= MAX_FACES and m["name"] not in probe_names]
+    meshes += [mg.renumber(m, rng) for m in (mg.small_meshes()[6], mg.small_meshes()[9], mg.closed_meshes()[0])]
     n_rand = 6 if tier == "quick" else 60
-    extra += [m for m in mg.random_meshes(seed * 31 + 5, n_rand) if m["n_face"] <= MAX_FACES]
-    meshes += extra
-    uniform_probe = mg.quad_patch(2, 1)
-    mixed_probe = [m for m in mg.small_meshes() if m["name"] == "mixed_quad_tri_isolated"][0]
-    tri_probe = [m for m in mg.small_meshes() if m["name"] == "tri_fan4"][0]
-    cube_probe = mg.cube()
-    probes = [("any mesh (uniform 2-quad patch suffices)", uniform_probe), ("triangle meshes (tri_fan4 suffices)", tri_probe),
-              ("mixed-size meshes (mixed_quad_tri_isolated suffices)", mixed_probe), ("closed meshes (cube suffices)", cube_probe)]
-    limit = {"quick": 14, "thorough": 150}[tier]
+    meshes += [m for m in mg.random_meshes(seed * 31 + 5, n_rand) if m["n_face"] <= MAX_FACES]
+    limit = {"quick": 12, "thorough": 150}[tier]
     _MEMO.clear()
     failures, samples = [], []
-    seen_keys = {}
+    seen, reduced = set(), {}
     cases = 0
     distinct = set()
     per_format = {}
     for fmt in FORMATS:
         ms = _geos_meshes() if fmt == "geos_cs" else meshes
+        # the orphan-node probe only matters to sources that carry node ids (the other sources are checked on its twin)
+        pr = [] if fmt == "geos_cs" else [p for p in probes if fmt in ("ugrid", "topology") or "unreferenced" not in p[1]["name"]]
         for mesh in ms:
-            if not any(FORMATS[fmt]["valid"](mesh, dict(zip(FORMATS[fmt]["axes"](mesh), v)))
-                       for v in itertools.product(*FORMATS[fmt]["axes"](mesh).values())):
+            if "unreferenced" in mesh["name"] and fmt not in ("ugrid", "topology"):
                 continue
-            full = mesh["name"] in ("quads2x1@-20,-10", "mixed_quad_tri_isolated", "cube", "octahedron")
-            for d in _dialects(fmt, mesh, rng, None if (full and tier == "thorough") else (limit * 3 if full else limit)):
+            if mesh["name"] in probe_names:       # probe meshes: every dialect that deviates in <= 2 axes (thorough: all dialects)
+                todo = _dialects(fmt, mesh, rng, None if tier == "thorough" else 0, depth=2)
+            else:
+                todo = _dialects(fmt, mesh, rng, limit, depth=1)
+            for d in todo:
                 res = _run(fmt, mesh, d)
                 cases += len(res)
-                distinct.add((fmt, mesh["name"], tuple(sorted((k, str(v)) for k, v in d.items()))))
+                dk = tuple(sorted((k, str(v)) for k, v in d.items()))
+                distinct.add((fmt, mesh["name"], dk))
                 per_format[fmt] = per_format.get(fmt, 0) + 1
                 if len(samples) < 3 and len(distinct) % 97 == 1:
                     samples.append({"format": fmt, "mesh": mesh["name"], "dialect": {k: str(v) for k, v in d.items()}})
@@ -827,17 +902,19 @@ def readers(tier, seed):
                     if info is None:
                         continue
                     ckey = _clause_key(clause, info)
-                    raw = (fmt, ckey, tuple(sorted((k, str(v)) for k, v in d.items())), _is_mixed(mesh) if fmt != "geos_cs" else None)
-                    if raw in seen_keys:
+                    raw = (fmt, ckey, dk, mesh["name"] if mesh["name"] in probe_names else None)
+                    if raw in seen:
                         continue
-                    pr = [] if fmt == "geos_cs" else probes
+                    seen.add(raw)
+                    if any(_explained(fmt, mesh, d, r, pr) for r in reduced.get((fmt, ckey), [])):
+                        continue
                     dmin, delta, tag = _reduce(fmt, mesh, d, ckey, pr)
                     key = f"{fmt}:{ckey}:{delta}:{tag}"
-                    seen_keys[raw] = key
+                    reduced.setdefault((fmt, ckey), []).append({"dmin": dmin, "tag": tag})
                     if any(f["key"] == key for f in failures):
                         continue
                     # re-evaluate on the reduced input so that observed/expected belong to the reported reproduction
-                    rmesh = next((pm for pn, pm in pr if pn == tag), mesh)
+                    rmesh = next((pm for pn, pm, _ in pr if pn == tag), mesh)
                     rres = _run(fmt, rmesh, dmin)
                     rinfo = next((v for c, v in rres.items() if v is not None and _clause_key(c, v) == ckey), info)
                     failures.append({"key": key, "what": f"{fmt} reader, clause {ckey}: violated for dialect [{delta}] on {tag}",
@@ -845,9 +922,10 @@ def readers(tier, seed):
                                      "inputs": {"format": fmt, "mesh": rmesh["name"], "dialect": {k: str(v) for k, v in dmin.items()}},
                                      "observed": rinfo.get("observed"), "expected": rinfo.get("expected")})
     failures.sort(key=lambda f: f["key"])
-    bound = (f"{len(meshes)} meshes (<= {MAX_FACES} faces: small catalogue, closed meshes, 3 renumbered, {n_rand} seeded random) + GEOS c1/c2; "
-             f"formats x sources opened: {per_format}; per mesh: baseline, all single-axis deviations and a seeded sample of the dialect "
-             f"product (limit {limit}, x3 or full product on the probe meshes); in-memory datasets, GeoJSON via temp files; NUMBA JIT off")
+    bound = (f"{len(meshes)} meshes (<= {MAX_FACES} faces: 5 probe meshes, small catalogue, closed meshes, 3 renumbered, {n_rand} seeded random) "
+             f"+ GEOS c1/c2; formats x sources opened: {per_format}; probe meshes: every dialect deviating from the baseline in <= 2 axes"
+             f"{' (thorough: the full dialect product)' if tier == 'thorough' else ''}; other meshes: baseline, all single-axis deviations "
+             f"and a seeded sample of the dialect product up to {limit}; in-memory datasets, GeoJSON via temp files; NUMBA JIT off")
     return result(cases, len(distinct), failures, bound, samples)
 
 
